@@ -311,7 +311,11 @@ fn ensure_slots(sc: &mut Scenario, need: usize) {
 
 fn plant_motif(sc: &mut Scenario, feat: u16, mv: u8) {
     let which = mv % 6;
-    let var = mv / 6;
+    // the variant bits: a hash of the rest of the motif byte and of a generated byte of the scenario, so
+    // that every combination of the bits below is reachable (fixed bit positions of `mv / 6` were not:
+    // it has 43 values)
+    let e0 = sc.steps.first().and_then(|s| s.plan.sched.choices.first()).cloned().unwrap_or(0);
+    let var = ((((mv / 6) as u32) * 97 + (e0 as u32) * 31 + 1).wrapping_mul(2654435761) >> 24) as u8;
     if which == 5 {
         plant_convergent_chains(sc, mv, var);
         return;
